@@ -39,6 +39,10 @@ func main() {
 			runH1Reports(*out, *seed, *tier)
 		case "fsmpause":
 			runH1Pause(*out, *seed, *tier)
+		case "nodeflow":
+			runNodeFlow(*out, *seed, *tier)
+		case "nodeterminal":
+			runNodeTerminal(*out, *seed, *tier)
 		case "fsmhist":
 			runH1Hist(*out, *seed, *tier)
 		default:
